@@ -150,6 +150,7 @@ type frame struct {
 	unescaped map[*ssa.Alloc]bool
 	noUndef   bool
 	nonAllocWrites map[string]bool
+	funcFreshWrites map[string]bool
 	effectsOnly bool
 	loadedFrom map[ssa.Value]*loadedFrom
 	loopEntry  map[int]*State
@@ -957,6 +958,7 @@ func (fr *frame) resolveName(name string, b *ssa.BasicBlock, atEnd bool, st *Sta
 			}
 			return TV{}, false
 		}
+		var zeroRef ssa.Value
 		for i := len(blk.Instrs) - 1; i >= 0; i-- {
 			switch in := blk.Instrs[i].(type) {
 			case *ssa.DebugRef:
@@ -976,7 +978,13 @@ func (fr *frame) resolveName(name string, b *ssa.BasicBlock, atEnd bool, st *Sta
 					if _, ok := fr.vals[in.X]; ok {
 						return mk(in.X)
 					}
-					if _, isC := in.X.(*ssa.Const); isC {
+					if c, isC := in.X.(*ssa.Const); isC {
+						// go/ssa leaves a reference to the zero value where a lifted variable was declared; a real
+						// definition in the same block takes precedence
+						if c.Value == nil && zeroRef == nil {
+							zeroRef = in.X
+							continue
+						}
 						return mk(in.X)
 					}
 				}
@@ -985,6 +993,44 @@ func (fr *frame) resolveName(name string, b *ssa.BasicBlock, atEnd bool, st *Sta
 					return mk(in)
 				}
 			}
+		}
+		if zeroRef != nil {
+			// look for a real definition of the variable whose defining block dominates the query point
+			// the variable's value may be recorded only at its uses: any recorded value whose DEFINITION dominates the
+			// query point is a candidate; it is taken when it is the only one
+			var best ssa.Value
+			ambiguous := false
+			for _, ob := range fr.fn.Blocks {
+				for _, oin := range ob.Instrs {
+					dr, ok := oin.(*ssa.DebugRef)
+					if !ok || dr.IsAddr {
+						continue
+					}
+					if id, ok := dr.Expr.(*ast.Ident); !ok || id.Name != name {
+						continue
+					}
+					if c, isC := dr.X.(*ssa.Const); isC && c.Value == nil {
+						continue
+					}
+					if _, ok := fr.vals[dr.X]; !ok {
+						continue
+					}
+					if xi, ok := dr.X.(ssa.Instruction); ok && xi.Block() != nil && !xi.Block().Dominates(b) {
+						continue
+					}
+					if best != nil && best != dr.X {
+						ambiguous = true
+					}
+					best = dr.X
+				}
+			}
+			if ambiguous {
+				best = nil
+			}
+			if best != nil {
+				return mk(best)
+			}
+			return mk(zeroRef)
 		}
 		return TV{}, false
 	}
